@@ -397,6 +397,7 @@ class SpyRunner(Runner):
 
     def wait(self, *, timeout_seconds):
         self.rec.on_wait(list(self.inflight))
+        yielded = 0
         for task, res in self.inner.wait(timeout_seconds=timeout_seconds):
             if task in self.inflight:
                 self.inflight.remove(task)
@@ -404,7 +405,17 @@ class SpyRunner(Runner):
                 self.rec.on_finish(task, self.inner.results_map[task].value)
             else:
                 self.rec.on_finish(task, None, exc=res)
+            yielded += 1
             yield (task, res)
+        # (reached only when the caller took everything this call had to give) with scripted workers: every future the executor
+        # reported as done in this call has been handed over as a completion
+        import exec_h as _X
+        sc = _X.SCRIPT
+        if sc is not None and getattr(sc, 'last_done_count', None) is not None and yielded < sc.last_done_count:
+            sc.violations.append(('completion-withheld', f'the executor reported {sc.last_done_count} finished futures in one wait(); the runner handed over only '
+                                                         f'{yielded} of them, the others wait for the next polling round'))
+        if sc is not None:
+            sc.last_done_count = None
 
     def cancel(self):
         self.rec.ev.append(('cancel',))
@@ -572,7 +583,18 @@ def run_case(case, workdir=None, backend_factory=None, catch_ki=False, around_ru
                 elsewhere += 1
             if r['kind'] == 'start':
                 obs.setdefault('start_times', {})[r['label']] = max(r['t'], obs.get('start_times', {}).get(r['label'], 0))
+            if r['kind'] == 'end' and 'wall' in r:
+                obs.setdefault('_end_wall', {})[r['label']] = max(r['wall'], obs.get('_end_wall', {}).get(r['label'], 0))
         obs['serial_elsewhere'] = elsewhere
+        # the recorded start of an executed task was taken before its run() began, hence before run() wrote its own 'end' record
+        late = []
+        for label, end_wall in obs.pop('_end_wall', {}).items():
+            for o in built.all_objects:
+                if o.label == label and o.result_meta is not None and o.result_meta.start is not None:
+                    if o.result_meta.start.timestamp() > end_wall + 1e-4:
+                        late.append(label)
+                    break
+        obs['meta_start_after_run'] = sorted(set(late))
     obs['events'] = rec.ev
     obs['batches'] = rec.batches
     obs['final_rmap'] = rec.final_rmap
